@@ -289,9 +289,12 @@ def st_lists_case(draw):
                                               ["p", E.PKS[4], "wss://x"]])))
         if kind == 30000:
             tags.append(["d", str(i)])
+        if draw(st.booleans()):
+            tags.append(["t", draw(st.sampled_from(["list", "other"]))])   # what the tag-filtered list queries select on
         evs.append(E.free(("%02x" % (i + 1)) * 32, draw(st.sampled_from(E.PKS[:2])), kind, E.T0 + i, tags))
-    allow = draw(st.sampled_from([[], [{"kinds": [3], "authors": [E.PKS[0]]}], [{"kinds": [3]}, {"kinds": [30000]}]]))
-    deny = draw(st.sampled_from([[], [{"kinds": [1984]}], [{"kinds": [1984], "authors": [E.PKS[0]]}]]))
+    allow = draw(st.sampled_from([[], [{"kinds": [3], "authors": [E.PKS[0]]}], [{"kinds": [3]}, {"kinds": [30000]}],
+                                  [{"kinds": [3], "#t": ["list"]}], [{"#t": ["list"], "authors": [E.PKS[0], E.PKS[1]]}]]))
+    deny = draw(st.sampled_from([[], [{"kinds": [1984]}], [{"kinds": [1984], "authors": [E.PKS[0]]}], [{"kinds": [1984], "#t": ["list"]}]]))
     return {"backend": draw(st.sampled_from(["kv", "sql"])), "events": evs, "allow": allow, "deny": deny,
             "whitelist": draw(st.sampled_from([[], [E.PKS[5]]])), "service": draw(st.booleans()),
             "second": draw(st.lists(st.integers(0, 6), max_size=3))}
@@ -345,7 +348,9 @@ class Lists(Sub):
 
         backend = case["backend"]
         viol = []
-        cfg = {"dynamic_lists": {"allow_list_queries": case["allow"], "deny_list_queries": case["deny"]},
+        # the relay gets its own copy of the configured queries (whatever it does to them must not leak into the oracle)
+        cfg = {"dynamic_lists": {"allow_list_queries": json.loads(json.dumps(case["allow"])),
+                                 "deny_list_queries": json.loads(json.dumps(case["deny"]))},
                "pubkey_whitelist": case["whitelist"]}
         if case["service"]:
             cfg["service_privatekey"] = bootstrap.SERVICE_SK
@@ -569,4 +574,114 @@ class Workers(Sub):
 
 
 
-SUBCHECKS = [Bounds(), Pipelines(), Lists(), Refresh(), Workers()]
+class Threads(Sub):
+    """validators run on worker threads: another validation may run between any two bytecode instructions of one"""
+
+    name = "threads"
+    examples = {"quick": 60, "thorough": 480}
+    shards = {"quick": 6, "thorough": 12}
+    rule = ("a validator decides event A under a generated configuration with an INSTRUCTION callback on every function of "
+            "nostr_relay.validators; at EVERY bytecode boundary the callback validates a second event B (as another worker "
+            "thread would) and compares the decision with the reference; the list objects in the configuration are replaced "
+            "between rounds (first use of a list is where caches are built); exhaustive over the boundaries of the drawn "
+            "case; non-trivial = B must be rejected and A accepted, or the other way round")
+
+    def strategy(self, tier):
+        name = st.sampled_from(["is_author_whitelisted", "is_author_blacklisted", "is_certain_kind", "is_not_hellthread",
+                                "is_not_too_large"])
+        lists = st.lists(st.lists(st.sampled_from(E.PKS[:4]), min_size=1, max_size=3, unique=True), min_size=1, max_size=3)
+        return st.tuples(name, lists, st.integers(0, 3), st.integers(0, 3)).map(list)
+
+    def run_case(self, case):
+        import types
+
+        from aionostr.event import Event
+        from nostr_relay import validators
+        from nostr_relay.errors import StorageError
+
+        name, lists, ka, kb = case
+        viol = []
+        boundaries = [0]
+        nt = False
+        func = getattr(validators, name)
+        codes = [f.__code__ for f in vars(validators).values() if isinstance(f, types.FunctionType)
+                 and f.__module__ == validators.__name__]
+        mon = sys.monitoring
+        tool = 3
+
+        def mk(k):
+            return {"id": "ff" * 32, "pubkey": E.PKS[k], "created_at": NOW, "kind": 1 if k % 2 else 7,
+                    "tags": [["p", E.PKS[0]]] * (k + 1), "content": "x" * (k * 3), "sig": "00" * 64}
+
+        def decide(ev, cfg):
+            try:
+                func(Event(**ev), cfg)
+                return False
+            except StorageError:
+                return True
+
+        def run_a(pubs, rnd, switch_at):
+            """A is validated under fresh list objects; at boundary number switch_at (None: never) the other thread validates B"""
+            cfg = Cfg(pubkey_whitelist=list(pubs), pubkey_blacklist=list(pubs), valid_kinds=[1] if rnd % 2 else [1, 7],
+                      hellthread_limit=2, max_event_size=5, service_pubkey=E.PKS[5])
+            a, b = mk(ka), mk(kb)
+            want_a, want_b = ref_reject(name, a, cfg, NOW), ref_reject(name, b, cfg, NOW)
+            inside = [False]
+            wrong = []
+            count = [0]
+
+            def on_instr(codeobj, offset):
+                if inside[0]:
+                    return
+                count[0] += 1
+                if switch_at is None or count[0] - 1 != switch_at:
+                    return
+                inside[0] = True
+                try:
+                    boundaries[0] += 1
+                    if decide(b, cfg) != want_b:
+                        wrong.append((codeobj.co_name, offset))
+                finally:
+                    inside[0] = False
+
+            try:
+                mon.use_tool_id(tool, "verif-c16t")
+            except ValueError:
+                mon.free_tool_id(tool)
+                mon.use_tool_id(tool, "verif-c16t")
+            mon.register_callback(tool, mon.events.INSTRUCTION, on_instr)
+            for code in codes:
+                mon.set_local_events(tool, code, mon.events.INSTRUCTION)
+            try:
+                got_a = decide(a, cfg)
+            finally:
+                for code in codes:
+                    mon.set_local_events(tool, code, 0)
+                mon.register_callback(tool, mon.events.INSTRUCTION, None)
+                mon.free_tool_id(tool)
+            if got_a != want_a:
+                viol.append(V("validator-decision-differs:%s" % name, "each validator decides exactly according to its documented bound",
+                              round=rnd, rejected=got_a, expected=want_a))
+            if wrong:
+                viol.append(V("validator-decision-under-interleaving:%s" % name,
+                              "a validation running on another worker thread decides correctly at every point",
+                              round=rnd, list=pubs, other_event_pubkey=b["pubkey"][:8], expected_rejected=want_b,
+                              wrong_at=wrong[:4], switch_at=switch_at))
+            return count[0], want_a != want_b
+
+        # one thread switch per run, at every boundary in turn; the configured lists alternate between the drawn ones (fresh
+        # objects every time, as after a configuration reload) so that whatever is remembered from the run before is stale
+        n0, _ = run_a(lists[0], 0, None)
+        rnd = 0
+        for i in range(n0 + 1):
+            rnd += 1
+            _, differ = run_a(lists[rnd % len(lists)], rnd, i)
+            nt = nt or differ
+            if viol:
+                break
+        if boundaries[0] < 5:
+            raise H.HarnessError("instruction monitoring saw only %d boundaries" % boundaries[0])
+        return Result(viol, nt, ["validator:" + name], evals=max(boundaries[0], 1), sample={"case": case, "boundaries": boundaries[0]})
+
+
+SUBCHECKS = [Bounds(), Pipelines(), Lists(), Refresh(), Workers(), Threads()]
